@@ -46,6 +46,20 @@ ApplyArr(a, op) ==
 ApplyMap(a, m) == LET rs == [i \in 1..Len(a) |-> Apply(a[i], "set", m)] IN
                   IF \E i \in 1..Len(a) : rs[i].st = "err" THEN [st |-> "err", val |-> <<>>] ELSE [st |-> "ok", val |-> [i \in 1..Len(a) |-> rs[i].val]]
 
+\* default / alternative operators applied to a whole list ("${a[@]-w}" "${a[*]:+w}" "${@:-w}" ...): the list is SET when it has an element,
+\* NULL when its elements joined by blanks give the empty string (no element, or exactly one empty element)
+RECURSIVE JoinSp(_)
+JoinSp(l) == IF l = <<>> THEN <<>> ELSE IF Len(l) = 1 THEN l[1] ELSE l[1] \o <<" ">> \o JoinSp(Tail(l))
+ListDflt(a, form, op) ==
+  LET isSet == Len(a) > 0   nonNull == isSet /\ JoinSp(a) # <<>>
+      V == IF form = "at" THEN a ELSE <<JoinSp(a)>>
+      W == <<<<"W">>>>
+      none == IF form = "at" THEN <<>> ELSE <<<<>>>>            \* "${unset[@]+w}" is no word at all, "${unset[*]+w}" one empty word
+  IN CASE op = "dflt" -> IF isSet THEN V ELSE W
+       [] op = "dfltC" -> IF nonNull THEN V ELSE W
+       [] op = "alt" -> IF isSet THEN W ELSE none
+       [] op = "altC" -> IF nonNull THEN W ELSE (IF form = "at" /\ isSet THEN <<<<>>>> ELSE none)
+
 ArrOps == {Op("alen", 0, 0, <<>>, <<>>), Op("akeys", 0, 0, <<>>, <<>>)} \cup {Op("aslice1", x, 0, <<>>, <<>>) : x \in Offs} \cup {Op("aslice2", x, y, <<>>, <<>>) : x \in Offs, y \in {-1, 0, 1, 2, 4}}
           \cup {Op("pslice1", x, 0, <<>>, <<>>) : x \in Offs} \cup {Op("pslice2", x, y, <<>>, <<>>) : x \in Offs, y \in {0, 1, 2, 4}}
           \cup {Op("aelen", x, 0, <<>>, <<>>) : x \in {0, 1, 3}}
@@ -68,6 +82,8 @@ Emit == done \/
   CASE Fam = "arr" -> \A ix \in Arrays : (Len(ix) + (IF Len(ix) > 0 THEN ix[1] ELSE 0)) % NChunks = Chunk =>
                          /\ \A op \in ArrOps : LET r == ApplyArr(ArrOf(ix), op) IN PrintT(<<"ROW", ToJson([fam |-> "arr", a |-> ArrOf(ix), op |-> op, st |-> r.st, val |-> r.val])>>)
                          /\ \A m \in MapOps : LET r == ApplyMap(ArrOf(ix), m) IN PrintT(<<"ROW", ToJson([fam |-> "amap", a |-> ArrOf(ix), op |-> m, st |-> r.st, val |-> r.val])>>)
+    [] Fam = "adflt" -> Chunk # 0 \/ \A ix \in Arrays, form \in {"at", "star"}, op \in {"dflt", "dfltC", "alt", "altC"}, tgt \in {"arr", "pos"} :
+                         PrintT(<<"ROW", ToJson([fam |-> "adflt", a |-> ArrOf(ix), form |-> form, k |-> op, tgt |-> tgt, st |-> "ok", val |-> ListDflt(ArrOf(ix), form, op)])>>)
     [] Fam = "ind" -> Chunk # 0 \/ \A t \in IndTargets, k \in {"ind", "inddflt", "indalt"} : LET r == Ind(t, k) IN PrintT(<<"ROW", ToJson([fam |-> "ind", t |-> t, k |-> k, st |-> r.st, val |-> r.val])>>)
     [] Fam = "trans" -> Chunk # 0 \/ \A v \in TransVals, k \in {"tU", "tL", "tu"} : PrintT(<<"ROW", ToJson([fam |-> "trans", v |-> v, k |-> k, st |-> "ok", val |-> Trans(v, k)])>>)
 =============================================================================
